@@ -100,6 +100,12 @@ claim("C14", "model-based property testing of OAuth2 start/callback interleaving
       "Codec: distinct (provider, uid) pairs give distinct PIDs and Parse(Make(p,u)) == (p,u) whenever parsing succeeds.",
       TRUST)
 
+claim("C15", "grammar-based property testing of return-target strings (rapid) over a real socket against an independent WHATWG-style same-origin classifier + native fuzz seeded with hostile constants",
+      "Return targets are drawn from a grammar of safe relative forms and hostile spellings (absolute URLs in any scheme/case, //host, /\\host, \\/host, scheme:host, leading space / C0 controls, embedded tab/CR/LF, userinfo, ports, IPv6, look-alike hosts) plus raw strings, "
+      "and delivered by query or body to the password, OTP, TOTP-validate, SMS-validate and OAuth2 flows in form and JSON mode on http and https sites. The response head is read raw from a loopback socket (so the judged Location is what net/http really emits) "
+      "and both the Location header and the JSON location are resolved by an independent same-origin classifier; anything a browser would resolve to another origin is a violation.",
+      TRUST + " The classifier is part of the trusted base; it is validated against ~90 hand-labelled strings for both base schemes.", engine="redirect-strings")
+
 NOT_YET = "check not built yet in this round (claimed in DESIGN.md; will be claimed once its check is committed)"
 
 def main():
@@ -136,6 +142,7 @@ def main():
             {"name": "world-machine", "path": "/verif/props/engine_test.go", "kind_free_text": "rapid-generated op histories interpreted against a full application World (harness/) with per-property monitors",
              "serves_properties": sorted(k for k, v in C.items() if v["engine"] == "world-machine")},
             {"name": "table+strings", "path": "/verif/props/c08_test.go", "kind_free_text": "exhaustive finite table crossed with rapid-generated strings", "serves_properties": ["C08"]},
+            {"name": "redirect-strings", "path": "/verif/props/c15_test.go", "kind_free_text": "grammar-generated redirect targets through real flows over a loopback socket", "serves_properties": ["C15"]},
             {"name": "handler-program", "path": "/verif/props/c11_test.go", "kind_free_text": "rapid-generated handler programs against recording stores", "serves_properties": ["C11"]},
         ],
         "checks": checks,
